@@ -148,6 +148,19 @@ def replay_pairs(recs):
         wa = wpv / np.linalg.norm(wpv)
         if not (maxdiff(a, wa) <= 1e-14 and maxdiff(b, wa) <= 1e-14):
             t.fail("C09|q_mult_L/R|left-right-matrix", {"p": p, "v": v, "L": a, "R": b, "want": wa})
+        # integer containers (lists / integer arrays) as operands of the free function and the operators: same product
+        t.calls += 4
+        want_int = wpv / np.linalg.norm(np.array(v, dtype=float))
+        for name, fn in (("q_prod[int-list-left]", lambda: ori.q_prod([int(c) for c in p], fv.copy())),
+                         ("q_prod[int-array-left]", lambda: ori.q_prod(np.array(p, dtype=np.int64), fv.copy())),
+                         ("product[int-array-right]", lambda: Quaternion(fv.copy()).product(np.array(p, dtype=np.int64))),
+                         ("mul[int-list-right]", lambda: Quaternion(fv.copy()) * [int(c) for c in p])):
+            o = core.outcome(fn)
+            wv = want_int if "left" in name else wvp / np.linalg.norm(np.array(v, dtype=float))
+            if o[0] != "ok":
+                t.fail("C09|%s|raises-%s" % (name, o[1]), {"p": p, "v": v, "err": o[2]})
+            elif not maxdiff(np.asarray(o[1], dtype=float), wv) <= 1e-14 * max(1.0, np.max(np.abs(wv))):
+                t.fail("C09|%s|product-differs-from-exact" % name, {"p": p, "v": v, "got": np.asarray(o[1]), "want": wv})
         # QuaternionArray stored scalar-last exposes the same components / conjugate / matrix
         t.calls += 3
         rows = np.array([np.roll(fp, -1), np.roll(fv, -1)])
